@@ -203,6 +203,7 @@ pub fn gen_fault(seed: u64, n: usize) -> Vec<Scenario> {
             let kind = *pick(&mut rng, kinds);
             sc.faults.push(Fault {
                 at_send,
+                from_send: 0,
                 at_recv: -1,
                 op: op.into(),
                 kind: kind.into(),
@@ -211,6 +212,7 @@ pub fn gen_fault(seed: u64, n: usize) -> Vec<Scenario> {
         if rng.random_range(0..5) == 0 {
             sc.faults.push(Fault {
                 at_send: -1,
+                from_send: 0,
                 at_recv: rng.random_range(0..200),
                 op: (*pick(&mut rng, &["select", "read"])).into(),
                 kind: (*pick(&mut rng, &["other", "wouldblock"])).into(),
@@ -262,6 +264,29 @@ pub fn gen_sched(seed: u64, n: usize) -> Vec<Scenario> {
         sc.min_round_us = sc.min_round_us.min(sc.max_round_us);
         sc.net.late_us = sc.max_round_us + 2_000;
         sc.tcp_timeout_us = sc.max_round_us;
+    }
+    v
+}
+
+/// Storm family (C07): TCP port collisions from some send onwards exhaust the round's sequence budget.
+pub fn gen_storm(seed: u64, n: usize) -> Vec<Scenario> {
+    let mut v = gen_loop(seed ^ 0x0707, n, "storm");
+    let mut rng = StdRng::seed_from_u64(seed ^ 0x5eed_0007);
+    for sc in &mut v {
+        sc.proto = "tcp".into();
+        sc.strat = "classic".into();
+        sc.ports = (*pick(&mut rng, &["src", "dest"])).into();
+        sc.privileged = true;
+        sc.faults.clear();
+        sc.faults.push(Fault {
+            at_send: -1,
+            from_send: rng.random_range(1..40),
+            at_recv: -1,
+            op: (*pick(&mut rng, &["bind", "connect"])).into(),
+            kind: "addrinuse".into(),
+        });
+        sc.init_seq = *pick(&mut rng, &[0, 33434, 63999, 64511]);
+        sc.max_rounds = 4;
     }
     v
 }
